@@ -37,6 +37,11 @@ def loader_files(rnd, tier):
     for origin, n in [(0xFFFF, 0), (0xFFFF, 1), (0xFFFE, 0), (0xFFFE, 1), (0xFFFE, 2), (0xFFF0, 14), (0xFFF0, 15), (0xFFF0, 16),
                       (0xFDFF, 0), (0xFDFF, 1), (0xFE00, 0), (0, 0), (0, 3), (0x3000, 0), (0x3000, 100)]:
         files.append(img(origin, [HALT] * n))
+    # files around (and far beyond) the size of the whole address space
+    for origin, nbytes in [(0, 131072), (0, 131070), (0, 131074), (0, 131073), (0, 131071), (0, 196608), (0, 262146),
+                           (1, 131072), (1, 131070), (0x3000, 131074), (0x3000, 131073), (0xFFFF, 131072)]:
+        b = bytearray(origin.to_bytes(2, "big")) + bytearray([0xF0, 0x25]) + bytearray(max(0, nbytes - 4))
+        files.append(bytes(b[:nbytes]))
     for _ in range(150 if tier == "quick" else 4000):
         origin = rnd.choice([0x3000, 0x3000, 0, 0x8000, 0xFDF0, rnd.randrange(65536)])
         words = [rnd.choice([ADDI(0, 0, 1), PUTN, OUT, HALT, rnd.randrange(65536), LD(0, 1), ADD(1, 1, 1), TRAP(0x80), 0x8000])
